@@ -35,6 +35,8 @@ func init() {
 			{ID: "C05-R9", Title: "reflected map walks are order independent", Floor: 0, Run: reflectedMapWalksAreOrderIndependent},
 			{ID: "C05-R10", Title: "sort orders are total over floats", Floor: 1, Run: sortOrdersAreTotalOverFloats},
 			{ID: "C05-R11", Title: "shared state is enumerated (shared with C09-R18)", Floor: 1, Run: sharedStateIsEnumerated},
+			{ID: "C05-R12", Title: "format arguments have a defined text", Floor: 1, Run: formatArgumentsHaveADefinedText},
+			{ID: "C05-R13", Title: "the compiler does not write into the syntax tree", Floor: 1, Run: theCompilerDoesNotWriteIntoTheSyntaxTree},
 		},
 	})
 }
